@@ -19,7 +19,7 @@ STUBS = ["logger: real ConsolePrinter(quiet)"]
 OUTSIDE = ["combinations the README does not define (reference model raises Undefined and the input is skipped): '.' search "
            "directly on an Array-of-Hashes, '**' followed by anything but a plain key, '*'/'**' over sets, mixed-sign "
            "slices, slices followed by a non-key segment, ordering/affix operators against null, text leaves that spell "
-           "bool/None/numbers, float/bool leaves, anchors (C02/C07), collectors and keywords (C09/C13/C15)",
+           "bool/None/numbers, float/bool leaves, anchors reached through merge keys, collectors and keywords (C09/C13/C15)",
            "shapes outside vf/docs.py, templates outside harness/c01.py TEMPLATES, leaves outside [-9,9], indexes outside [-6,6]"]
 ASSUMPTIONS = ["reference model vf/model_query.py transcribes README 'Supported YAML Path Segments'; it is validated at run "
                "start against (document, path, expected values) triples taken from tests/test_processor.py"]
@@ -97,6 +97,10 @@ TEMPLATES = {
     "key_gt": (lambda i, j: [_sb(".", ">", "p")], lambda i, j: [S(".", ">", "p")], False, False, "[.>p] (key names)"),
     "p_el_gt": (lambda i, j: [K("p"), _sb(".", ">", "2")], lambda i, j: [("key", "p"), S(".", ">", "2")], False, False,
                 "p[.>2] (pass-through then filter)"),
+    "anc": (lambda i, j: [B("[&t]")], lambda i, j: [("anchor", "t")], False, False, "[&t] (anchor; every aliased place)"),
+    "anc_k": (lambda i, j: [K("&t")], lambda i, j: [("anchor", "t")], False, False, "&t (anchor written as a key)"),
+    "anc_n": (lambda i, j: [B("[&t]"), K("n")], lambda i, j: [("anchor", "t"), ("key", "n")], False, False, "[&t].n"),
+    "anc_nope": (lambda i, j: [B("[&zz]")], lambda i, j: [("anchor", "zz")], False, False, "[&zz] (no such anchor)"),
     "star": (lambda i, j: [K("*")], lambda i, j: [("star",)], False, False, "*"),
     "star_p": (lambda i, j: [K("*"), K("p")], lambda i, j: [("star",), ("key", "p")], False, False, "*.p"),
     "star_at": (lambda i, j: [K("*"), _sb("p", ">", "2")], lambda i, j: [("star",), S("p", ">", "2")], False, False, "*[p>2]"),
@@ -268,6 +272,8 @@ FLOATS = [("LFLT", t) for t in ("el_eq_2", "el_eq_2f", "el_neq_1f", "el_ew_0", "
          [("AOHF", t) for t in ("at_le_f", "at_nge_f", "at_gt", "at_le", "p", "p_el_gt")]
 TEXTS = [("LTXT", t) for t in ("tx_sw", "tx_ew", "tx_has", "tx_nhas", "tx_eq", "tx_lt", "tx_ge", "idx", "star")] + \
         [("MTXT", t) for t in ("tx_sw", "tx_eq", "tx_lt", "key_sw", "star", "deep")]
+ANCHORS = [("LANC", "anc"), ("LANC", "anc_k"), ("LANC", "anc_nope"), ("LANC", "idx"), ("LANC", "star"), ("LANC1", "anc"),
+           ("MANC", "anc"), ("MANC", "anc_k"), ("MANC", "star"), ("AANC", "anc"), ("AANC", "anc_n"), ("AANC", "p")]
 OTHER = [("LMIX", "el_eq_p"), ("LMIX", "el_neq_p"), ("LHASH", "el_eq_p"), ("LMIX", "el_eqx"), ("LL", "idx_idx"), ("LL", "star_idx"), ("LL", "star"), ("LL", "deep"), ("LL", "idx"), ("LMIX", "idx"),
          ("LMIX", "p"), ("LMIX", "deep"), ("LMIX", "star"), ("LHASH", "p"), ("LHASH", "star_p"), ("LSTR", "idx"),
          ("LSTR", "deep"), ("SET", "p"), ("SET", "self"), ("SETI", "k1"), ("ROOTSCALAR", "self"), ("ROOTSCALAR", "el_gt"),
@@ -278,7 +284,8 @@ QUICK = [("L3", "idx"), ("ML3", "barekey"), ("ML4", "slice"), ("L3", "el_gt"), (
          ("M3", "key_sw"), ("M3", "hslice"), ("MM", "at_gt"), ("MINT", "k1"), ("HOH", "star_at"), ("MM", "deep"),
          ("LL", "idx_idx"), ("LMIX", "p"), ("M3", "star"), ("SCAL", "el_gt"), ("AOHX", "p_el_gt"), ("MSTRNUM", "k1"),
          ("AOH3", "slice_p"), ("LFLT", "el_le_f"), ("LFLT", "el_ge_f"), ("LFLT", "el_eq_2"), ("LFLT", "el_eq_2f"), ("LFLT", "el_neq_1f"), ("AOHF", "at_le_f"), ("AOHF", "at_nge_f"),
-         ("LTXT", "tx_sw"), ("LTXT", "tx_lt"), ("LTXT", "tx_nhas"), ("LMIX", "el_eq_p"), ("LHASH", "el_eq_p")]
+         ("LTXT", "tx_sw"), ("LTXT", "tx_lt"), ("LTXT", "tx_nhas"), ("LMIX", "el_eq_p"), ("LHASH", "el_eq_p"),
+         ("LANC", "anc"), ("MANC", "anc"), ("AANC", "anc_n"), ("LANC1", "anc_k")]
 
 
 def _mk(shape, template, tier):
@@ -322,7 +329,7 @@ def pairs(tier):
         out += [(s, t) for t in AOH_T]
     for s in HASHES:
         out += [(s, t) for t in HASH_T]
-    out += OTHER + FLOATS + TEXTS
+    out += OTHER + FLOATS + TEXTS + ANCHORS
     seen, uniq = set(), []
     for p in out + QUICK:
         if p not in seen:
